@@ -298,7 +298,8 @@ def inline_locals(fn: T.Any) -> T.Any:
                     tgt, val = st.targets[0].id, st.value
                 elif isinstance(st, ast.AnnAssign) and isinstance(st.target, ast.Name) and st.value is not None:
                     tgt, val = st.target.id, st.value
-                if tgt is not None and val is not None and stores.get(tgt) == 1 and _pure(val) and not isinstance(val, (ast.List, ast.Set, ast.Dict, ast.Tuple, ast.Constant)) \
+                const_table = isinstance(val, ast.Tuple) and bool(val.elts) and all(isinstance(r, ast.Tuple) and r.elts for r in val.elts)
+                if tgt is not None and val is not None and stores.get(tgt) == 1 and _pure(val) and (const_table or not isinstance(val, (ast.List, ast.Set, ast.Dict, ast.Tuple, ast.Constant))) \
                         and not (isinstance(val, ast.Call) and not val.args and not val.keywords):
                     rest = stmts[i + 1:]
                     uses_after = [n for x in rest for n in ast.walk(x) if isinstance(n, ast.Name) and n.id == tgt]
@@ -485,6 +486,16 @@ def _stmt_forms(stmts: T.List[ast.stmt]) -> T.List[ast.stmt]:
             if disp and m == 'update':
                 out += one(st.value.func.value, 'add', a0.elts)  # type: ignore[union-attr]
                 continue
+        # A3: callee (bound method) selected by a conditional expression
+        if isinstance(st, ast.Expr) and isinstance(st.value, ast.Call) and isinstance(st.value.func, ast.IfExp):
+            sel0 = st.value.func
+
+            def arm0(f: ast.expr) -> ast.stmt:
+                c2 = copy.deepcopy(st.value)
+                c2.func = f  # type: ignore[attr-defined]
+                return ast.copy_location(ast.Expr(value=c2), st)
+            out += _stmt_forms([ast.copy_location(ast.If(test=sel0.test, body=[arm0(sel0.body)], orelse=[arm0(sel0.orelse)]), st)])
+            continue
         # A3: receiver selected by a conditional expression
         if isinstance(st, ast.Expr) and isinstance(st.value, ast.Call) and isinstance(st.value.func, ast.Attribute) and isinstance(st.value.func.value, ast.IfExp):
             sel = st.value.func.value
@@ -529,6 +540,18 @@ def _stmt_forms(stmts: T.List[ast.stmt]) -> T.List[ast.stmt]:
                     getattr(parent, field_idx[0])[field_idx[1]] = name
                 out.append(ast.copy_location(ast.Assign(targets=[ast.Name(id=pos.target.id, ctx=ast.Store())], value=pos.value), st))
                 out.append(st)
+                continue
+        # A4/B5: loop over a display of records (tuples) with an unpacking target is the body repeated per record
+        if isinstance(st, ast.For) and isinstance(st.target, (ast.Tuple, ast.List)) and not st.orelse and isinstance(st.iter, (ast.Tuple, ast.List)) and st.iter.elts \
+                and all(isinstance(t, ast.Name) for t in st.target.elts) \
+                and all(isinstance(r, (ast.Tuple, ast.List)) and len(r.elts) == len(st.target.elts) and all(_pure(x) and not isinstance(x, ast.Starred) for x in r.elts)
+                        for r in st.iter.elts):
+            names = [t.id for t in st.target.elts]  # type: ignore[attr-defined]
+            jumps = [n for x in st.body for n in ast.walk(x) if isinstance(n, (ast.Break, ast.Continue))]
+            rebinds = [n for x in st.body for n in ast.walk(x) if isinstance(n, ast.Name) and n.id in names and isinstance(n.ctx, (ast.Store, ast.Del))]
+            if not jumps and not rebinds:
+                for r in st.iter.elts:
+                    out += _stmt_forms([T.cast(ast.stmt, _subst(b, dict(zip(names, r.elts)), {})) for b in st.body])  # type: ignore[attr-defined]
                 continue
         if isinstance(st, ast.For) and isinstance(st.target, ast.Name) and not st.orelse:
             v = st.target.id
@@ -595,6 +618,6 @@ def forms(mod: Module, cls: str, fn: T.Any) -> T.Any:
 
 def normalise(mod: Module, cls: str, fn: T.Any) -> T.Any:
     try:
-        return inline_locals(forms(mod, cls, inline_helpers(mod, cls, forms(mod, cls, fn))))
+        return forms(mod, cls, inline_locals(forms(mod, cls, inline_helpers(mod, cls, forms(mod, cls, fn)))))
     except RecursionError:      # pragma: no cover
         raise Undecided(f'{cls}.{getattr(fn, "name", "?")}: normalisation does not terminate')
